@@ -105,7 +105,7 @@ macro_rules! mutex_seq {
     }
   };
 }
-mutex_seq!(c10_q_mutex_seq_n4, 4, 5);
+mutex_seq!(c10_t_mutex_seq_n3, 3, 5);
 mutex_seq!(c10_t_mutex_seq_n6, 6, 7);
 
 // ---------------------------------------------------------------- rwlock sequential
@@ -227,7 +227,7 @@ macro_rules! rwlock_seq {
     }
   };
 }
-rwlock_seq!(c10_q_rwlock_seq_n4, 4, 5);
+rwlock_seq!(c10_t_rwlock_seq_n3, 3, 5);
 rwlock_seq!(c10_t_rwlock_seq_n6, 6, 7);
 
 // ---------------------------------------------------------------- nested preemption
@@ -270,8 +270,7 @@ fn actor_cancel_mutex_future(_a: sched::ActorId) {
 /// at any synchronisation point of the cancel): the next pending future must end up woken.
 #[kani::proof]
 #[kani::unwind(5)]
-fn c10_q_mutex_cancel_vs_unlock() {
-  with_pick(40, |at| {
+fn c10_t_mutex_cancel_vs_unlock() {
   let m_stack = HybridMutex::new(0u8);
   let m: &'static HybridMutex<u8> = unsafe { &*(&m_stack as *const HybridMutex<u8>) }; // on the stack: CBMC tracks stack objects precisely
   let mut held = m.try_lock();
@@ -280,7 +279,6 @@ fn c10_q_mutex_cancel_vs_unlock() {
   assert!(poll_slot(&mut f1, 0).is_pending(), "C10: lock_async acquired a held mutex");
   assert!(poll_slot(&mut f2, 1).is_pending(), "C10: lock_async acquired a held mutex");
   MG.store(&mut held as *mut _, Relaxed);
-  sched::set_preempt_at(at);
   sched::install(actor_drop_mutex_guard, 1, 1);
   f1 = None; // cancel the head waiter; the release lands somewhere inside (or after)
   sched::run_pending();
@@ -289,15 +287,12 @@ fn c10_q_mutex_cancel_vs_unlock() {
   kani::cover!(wakes(0) > 0, "the cancelled waiter had been woken");
   kani::cover!(wakes(0) == 0, "the cancelled waiter had not been woken");
   std::mem::forget(f2);
-  assert!(sched::points() <= 40, "VERIF-BOUND: more scheduling points than the dispatch covers");
-  });
 }
 
 /// Same with the roles swapped: release on top, cancel injected.
 #[kani::proof]
 #[kani::unwind(5)]
-fn c10_q_mutex_unlock_vs_cancel() {
-  with_pick(40, |at| {
+fn c10_t_mutex_unlock_vs_cancel() {
   let m_stack = HybridMutex::new(0u8);
   let m: &'static HybridMutex<u8> = unsafe { &*(&m_stack as *const HybridMutex<u8>) }; // on the stack: CBMC tracks stack objects precisely
   let held = m.try_lock();
@@ -306,7 +301,6 @@ fn c10_q_mutex_unlock_vs_cancel() {
   assert!(poll_with(f1.as_mut().unwrap().as_mut(), 0).is_pending(), "C10: lock_async acquired a held mutex");
   assert!(poll_with(f2.as_mut().unwrap().as_mut(), 1).is_pending(), "C10: lock_async acquired a held mutex");
   MF.store(&mut f1 as *mut _, Relaxed);
-  sched::set_preempt_at(at);
   sched::install(actor_cancel_mutex_future, 1, 1);
   drop(held);
   sched::run_pending();
@@ -314,8 +308,6 @@ fn c10_q_mutex_unlock_vs_cancel() {
   assert!(wakes(1) > 0, "C10: mutex free, head waiter cancelled, next waiter never woken (lost wakeup)");
   kani::cover!(wakes(0) > 0, "the cancelled waiter had been woken");
   std::mem::forget(f2);
-  assert!(sched::points() <= 40, "VERIF-BOUND: more scheduling points than the dispatch covers");
-  });
 }
 
 // ---- rwlock
@@ -360,7 +352,7 @@ fn c10_q_rw_write_vs_read_unlock() {
 /// C10: blocking read() vs the writer releasing at any point.
 #[kani::proof]
 #[kani::unwind(5)]
-fn c10_q_rw_read_vs_write_unlock() {
+fn c10_t_rw_read_vs_write_unlock() {
   with_pick(40, |at| {
   let l_stack = HybridRwLock::new(0u8);
   let l: &'static HybridRwLock<u8> = unsafe { &*(&l_stack as *const HybridRwLock<u8>) };
@@ -381,8 +373,7 @@ fn c10_q_rw_read_vs_write_unlock() {
 /// writer must end up woken (cancel on top, release injected).
 #[kani::proof]
 #[kani::unwind(5)]
-fn c10_q_rw_cancel_writer_vs_unlock() {
-  with_pick(40, |at| {
+fn c10_t_rw_cancel_writer_vs_unlock() {
   let l_stack = HybridRwLock::new(0u8);
   let l: &'static HybridRwLock<u8> = unsafe { &*(&l_stack as *const HybridRwLock<u8>) };
   let mut held = l.try_write();
@@ -391,7 +382,6 @@ fn c10_q_rw_cancel_writer_vs_unlock() {
   assert!(poll_slot(&mut f1, 0).is_pending(), "C10: write_async acquired a held lock");
   assert!(poll_slot(&mut f2, 1).is_pending(), "C10: write_async acquired a held lock");
   WGP.store(&mut held as *mut _, Relaxed);
-  sched::set_preempt_at(at);
   sched::install(actor_drop_write_guard, 1, 1);
   f1 = None;
   sched::run_pending();
@@ -400,15 +390,12 @@ fn c10_q_rw_cancel_writer_vs_unlock() {
   kani::cover!(wakes(0) > 0, "the cancelled writer had been woken");
   kani::cover!(wakes(0) == 0, "the cancelled writer had not been woken");
   std::mem::forget(f2);
-  assert!(sched::points() <= 40, "VERIF-BOUND: more scheduling points than the dispatch covers");
-  });
 }
 
 /// Roles swapped: release on top, cancel injected.
 #[kani::proof]
 #[kani::unwind(5)]
-fn c10_q_rw_unlock_vs_cancel_writer() {
-  with_pick(40, |at| {
+fn c10_t_rw_unlock_vs_cancel_writer() {
   let l_stack = HybridRwLock::new(0u8);
   let l: &'static HybridRwLock<u8> = unsafe { &*(&l_stack as *const HybridRwLock<u8>) };
   let held = l.try_write();
@@ -417,15 +404,12 @@ fn c10_q_rw_unlock_vs_cancel_writer() {
   assert!(poll_with(f1.as_mut().unwrap().as_mut(), 0).is_pending(), "C10: write_async acquired a held lock");
   assert!(poll_with(f2.as_mut().unwrap().as_mut(), 1).is_pending(), "C10: write_async acquired a held lock");
   WFP.store(&mut f1 as *mut _, Relaxed);
-  sched::set_preempt_at(at);
   sched::install(actor_cancel_write_future, 1, 1);
   drop(held);
   sched::run_pending();
   sched::uninstall();
   assert!(wakes(1) > 0, "C10: lock free, first queued writer cancelled, second writer never woken (lost wakeup)");
   std::mem::forget(f2);
-  assert!(sched::points() <= 40, "VERIF-BOUND: more scheduling points than the dispatch covers");
-  });
 }
 
 fn actor_reader_arrives(_a: sched::ActorId) {
@@ -457,3 +441,64 @@ fn c10_q_rw_writer_not_starved() {
   });
 }
 
+
+/// C10 (sequential orders): two queued async acquirers; the head one is cancelled before or after
+/// the holder releases: the other one must end up woken, and then acquires.
+#[kani::proof]
+#[kani::unwind(5)]
+fn c10_q_mutex_cancel_orders() {
+  let m = HybridMutex::new(0u8);
+  let held = m.try_lock();
+  let mut f1 = Some(mk_lock(&m));
+  let mut f2 = Some(mk_lock(&m));
+  assert!(poll_slot(&mut f1, 0).is_pending(), "C10: lock_async acquired a held mutex");
+  assert!(poll_slot(&mut f2, 1).is_pending(), "C10: lock_async acquired a held mutex");
+  let cancel_first: bool = kani::any();
+  if cancel_first {
+    f1 = None;
+    drop(held);
+  } else {
+    drop(held);
+    assert!(wakes(0) == 1, "C10: head waiter not woken on release");
+    f1 = None;
+  }
+  assert!(wakes(1) >= 1, "C10: mutex free, head waiter cancelled, next waiter never woken (lost wakeup)");
+  match poll_slot(&mut f2, 1) {
+    Poll::Ready(g) => std::mem::forget(g),
+    Poll::Pending => assert!(false, "C10: woken waiter could not acquire a free mutex"),
+  }
+  assert!(m.try_lock().is_none(), "C10: two mutex guards coexist");
+  kani::cover!(cancel_first, "cancel before release");
+  kani::cover!(!cancel_first, "cancel after the wake was consumed");
+  std::mem::forget(f2);
+}
+
+/// Same for two queued writers of the rwlock.
+#[kani::proof]
+#[kani::unwind(5)]
+fn c10_t_rw_cancel_orders() {
+  let l = HybridRwLock::new(0u8);
+  let held = l.try_write();
+  let mut f1 = Some(mk_write(&l));
+  let mut f2 = Some(mk_write(&l));
+  assert!(poll_slot(&mut f1, 0).is_pending(), "C10: write_async acquired a held lock");
+  assert!(poll_slot(&mut f2, 1).is_pending(), "C10: write_async acquired a held lock");
+  let cancel_first: bool = kani::any();
+  if cancel_first {
+    f1 = None;
+    drop(held);
+  } else {
+    drop(held);
+    assert!(wakes(0) == 1, "C10: first queued writer not woken on release");
+    f1 = None;
+  }
+  assert!(wakes(1) >= 1, "C10: lock free, first queued writer cancelled, second writer never woken (lost wakeup)");
+  match poll_slot(&mut f2, 1) {
+    Poll::Ready(g) => std::mem::forget(g),
+    Poll::Pending => assert!(false, "C10: woken writer could not acquire a free lock"),
+  }
+  assert!(l.try_read().is_none(), "C10: read guard coexists with a write guard");
+  kani::cover!(cancel_first, "cancel before release");
+  kani::cover!(!cancel_first, "cancel after the wake was consumed");
+  std::mem::forget(f2);
+}
